@@ -84,6 +84,11 @@ func checkC04(c *core.Ctx) []core.Floor {
 	tr := core.NewRand(core.SubSeed(c.Seed, "C04T", 0))
 	for rep := 1; rep < 3; rep++ {
 		for _, t := range crashTemplates(tr) {
+			if t.timerOnly {
+				// thousands of page writes per flush, an image before each: C02
+				// runs this template against the real timer instead
+				continue
+			}
 			t.idx = 9000000 + len(hists)
 			t.schedule(tr, rep)
 			hists = append(hists, t)
@@ -123,6 +128,11 @@ func position(f *flushInfo, k int) string {
 }
 
 func runFlushCrashHist(c *core.Ctx, drv string, ch *crashHist, rep int) {
+	if core.Quick(c) && ch.name == "internal-root-split" && rep > 0 {
+		// thousands of images of a megabyte file per run: once is enough for
+		// the quick tier (two schedules), the thorough tier repeats it
+		return
+	}
 	dir := c.CaseDir("c04")
 	defer removeAll(dir)
 	var s script
@@ -218,7 +228,17 @@ func runFlushCrashHist(c *core.Ctx, drv string, ch *crashHist, rep int) {
 	}
 	var jobs []*crashJob
 	var secondLevelSrc []*crashJob
+	// images of the known class are recovered for the record in one history
+	// run out of sixteen (quick) / four (thorough) only: most of them end in a
+	// fatal stack overflow that costs seconds of system time each
 	knownSampled := 0
+	sampleEvery := 16
+	if !core.Quick(c) {
+		sampleEvery = 4
+	}
+	if (ch.idx*7+rep)%sampleEvery != 0 {
+		knownSampled = 1 << 30
+	}
 	for _, f := range flushes {
 		if f.allocating {
 			c.Count("flushes_allocating", 1)
